@@ -137,6 +137,7 @@ def run(c):
         return
     rng = c.rng
     g = cg.Gen(rng)
+    g.calc_only = True      # combos that calculate but would not validate (rate key under a country without regime)
     n = 3000 if quick else 120000
 
     def operand():
